@@ -205,7 +205,11 @@ pub type In = (Sharing, u16, bool);
 fn check(input: &In, case: &mut Case) -> Result<(), Fail> {
     let (s, k, sweep) = input;
     let p = s.assemble();
+    // a third of the packets each: names put together from labels, through Name::without, from text
+    let route = build_variant((p.id % 3) as u8);
     let pk = lib("build", || build(&p))?.map_err(|e| Fail::new("harness:build", e))?;
+    drop(route);
+    case.class(format!("name-route-{}", p.id % 3));
     let u = ser_plain(&pk).map_err(|f| Fail::new("c04:plain-failed", f.msg))?;
     let c = ser_compressed(&pk).map_err(|f| Fail::new("c04:compressed-failed", f.msg))?;
     super::c03::size_classes(&u, case);
